@@ -875,9 +875,59 @@ KNOWN_PRED = {
 
 # ------------------------------------------------------------------ run
 
+def run_repoint(ctx, rng):
+    """(e) a sheet loaded with an encoding equal to its own @charset, then its encoding attribute is changed, then one of
+    its @import rules is pointed at another file without encoding information: that file is decoded with, and reports,
+    the referring sheet's CURRENT encoding (the parent step of the precedence), not one remembered from parse time"""
+    import cssutils
+    from harness import impl
+    impl.reset()
+    old = rng.choice(['iso-8859-1', 'utf-8', 'cp1252', 'iso-8859-15'])
+    new = rng.choice([None, 'utf-8', 'cp1252', 'iso-8859-15', 'iso-8859-1'])
+    nested = rng.random() < 0.5
+    how = rng.choice(['http', 'charset-only'])
+    word = rng.choice(['\xe9', '\xe4\xf6', '\u20ac' if (new or 'utf-8') in ('utf-8', 'cp1252', 'iso-8859-15') and old in ('utf-8', 'cp1252', 'iso-8859-15') else '\xe9'])
+    cur = new or 'utf-8'
+    files = {
+        'ref.css': ('@charset "%s";@import "a.css";r{content:"%s"}' % (old, word)).encode(old),
+        'a.css': ('a{content:"%s"}' % word).encode(old),
+        'b.css': ('b{content:"%s"}' % word).encode(cur),
+        'top.css': b'@import "ref.css";',
+    }
+    case = {'old': old, 'new': new, 'nested': nested, 'how': how, 'word': word}
+    ctx.case(('repoint', json.dumps(case, sort_keys=True)))
+
+    def fetcher(url):
+        name = url.rsplit('/', 1)[-1]
+        if name not in files:
+            return None
+        return ((old if (how == 'http' and name == 'ref.css') else None), files[name])
+    try:
+        p = cssutils.CSSParser(fetcher=fetcher)
+        top = p.parseUrl('http://h/top.css' if nested else 'http://h/ref.css')
+        ref = top.cssRules[0].styleSheet if nested else top
+        if ref is None or ref.encoding != old:
+            return
+        ref.encoding = new
+        rule = [r for r in ref.cssRules if r.type == r.IMPORT_RULE][0]
+        rule.href = 'b.css'
+        imp = rule.styleSheet
+        srs = [r for r in imp.cssRules if r.type == r.STYLE_RULE] if imp is not None else []
+        val = srs[0].style.getPropertyValue('content') if srs else None
+        enc = imp.encoding if imp is not None else None
+    except Exception as e:
+        ctx.violation('repoint-raises', case, '%s: %s' % (type(e).__name__, e), KNOWN_PRED)
+        return
+    if enc != cur or val != '"%s"' % word:
+        ctx.violation('repoint-parent-encoding', case, 'imported sheet reports %r and content %r; the referring sheet now has %r (content %r expected)' % (
+            enc, val, cur, '"%s"' % word), KNOWN_PRED)
+
+
 def run(ctx):
     quick = ctx.tier == 'quick'
     rng = ctx.rng
+    for _ in range(60 if quick else 1500):
+        run_repoint(ctx, rng)
     ctx.cov['rule'] = ('(a) all rows override{none,4} x transport{none,"",4} x content{neither, BOM x3, @charset x4} x parent{none,4} x bytes/text '
                        'x fetcher result{data, None, (None,None)/(cs,None)} with a consistent and a lying payload; (b) import trees of depth <= 3 '
                        '(exhaustive chains over an 8-letter per-node alphabet in the thorough tier, sampled in quick; random branching trees) through '
